@@ -1,5 +1,6 @@
 """C18 Include/exclude and selection filters follow the documented rules."""
 import os
+import shutil
 import random
 import subprocess
 
@@ -242,6 +243,12 @@ def run_selection(case):
     a, fs = scen.make(rng, cfg, "c18s")
     try:
         paths, dirs = gen_paths(rng, rng.randint(8, 14))
+        # siblings whose names merely EXTEND a directory name (DIR.txt, DIR2/x): prefix relations between paths
+        ext_dir = rng.choice(dirs) if dirs else None
+        if ext_dir is not None:
+            for extra in (ext_dir + ".txt", ext_dir + "2/keep.dat", ext_dir + "zz"):
+                if extra not in paths and not any(q.startswith(extra + "/") or extra.startswith(q + "/") for q in paths):
+                    paths.append(extra)
         for d in a.disks:
             for p in paths:
                 pb = p.encode("latin-1")
@@ -254,13 +261,28 @@ def run_selection(case):
         # damage: delete a random subset of files on every disk (all recoverable: <= 2 per stripe is not guaranteed, so delete on one disk only, flip on another)
         d_del = rng.choice(a.disks)
         deleted = set()
+        whole_dir = ext_dir is not None and rng.random() < 0.6
         for (d, s) in fs.files(d_del):
-            if rng.random() < 0.6:
+            sl = s.decode("latin-1")
+            if (whole_dir and sl.startswith(ext_dir + "/")) or (not whole_dir and rng.random() < 0.6):
                 os.unlink(fs.path(d, s))
-                deleted.add((d, s.decode("latin-1")))
+                deleted.add((d, sl))
+        if whole_dir:
+            shutil.rmtree(fs.path(d_del, ext_dir.encode("latin-1")), ignore_errors=True)
         if not deleted:
             res["inconclusive"] = "nothing deleted"
             return res
+        # files that are present but were changed by the user since the sync (new bytes, new time-stamp): with -m they are
+        # outside the selection whatever their name; without -m a selected one is reverted to its synced content
+        modified = set()
+        for (d, s) in fs.files(d_del):
+            sl = s.decode("latin-1")
+            if (d, sl) in deleted:
+                continue
+            if (ext_dir is not None and sl.startswith(ext_dir) and not sl.startswith(ext_dir + "/")) or rng.random() < 0.15:
+                with open(fs.path(d, s), "wb") as f:
+                    f.write(A.gen_bytes(rng, rng.randint(1, 3000), "rand"))
+                modified.add((d, sl))
         # selection
         sel = rng.choice(["f", "d", "m", "fd"])
         args = []
@@ -293,7 +315,11 @@ def run_selection(case):
                 return False
             return True
         want = {(d, p) for (d, p) in deleted if selected(d, p)}
+        if sel != "m":
+            want |= {(d, p) for (d, p) in modified if selected(d, p)}
         res["counters"]["selection_runs"] = 1
+        res["counters"]["modified_survivors"] = len(modified)
+        res["counters"]["whole_dir_deleted"] = 1 if whole_dir else 0
         if written - want:
             res["violations"].append(("fix-writes-outside-selection", "fix %s wrote %s outside the selection (selected+missing: %s)" % (args, sorted(written - want)[:3], sorted(want)[:3]), rep))
         elif want - written:
@@ -302,6 +328,8 @@ def run_selection(case):
             # restored content must be right
             for (d, p) in want:
                 e = state[d][p.encode("latin-1")]
+                if e[0] != "file":
+                    continue
                 with open(fs.path(d, p.encode("latin-1")), "rb") as f:
                     if f.read() != e[1]:
                         res["violations"].append(("fix-wrong-content-under-filter", "%r" % p, rep))
